@@ -158,6 +158,18 @@ func runC07(env *Env, tier string) {
 					}
 					return nil
 				}
+				refusedSeq := p.OutSeq
+				if !expectReset {
+					switch ch.Weighted("refusedlogonseq", []int{4, 2, 2}) {
+					case 1:
+						refusedSeq = before.T + 1 + ch.Choose("refusedhigh", 4)
+					case 2:
+						if before.T > 1 {
+							refusedSeq = 1 + ch.Choose("refusedlow", before.T-1)
+						}
+					}
+					p.OutSeq = refusedSeq
+				}
 				env.Note("round %d: peer Logon 34=%d 141=%v, refused by the application", round, p.OutSeq, peerFlag)
 				p.Send("A", p.LogonBody(c.HeartBtInt, peerFlag), MsgOpt{})
 				s.E.App.RejectFromAdmin = nil
@@ -171,6 +183,10 @@ func runC07(env *Env, tier string) {
 					}
 				} else if n := resetCalls(s, mark); n != 0 {
 					env.Violate("C07/unagreed-reset", "store Reset called %d times for a Logon (141=%v, ResetOnLogon=%v) that the application refused", n, peerFlag, c.ResetOnLogon)
+					break
+				} else if !expectReset && refusedSeq != before.T && post.T != before.T {
+					// a refused Logon that does not carry the expected number cannot have consumed it
+					env.Violate("C07/continuity", "a refused Logon numbered %d moved the expected inbound number from %d to %d", refusedSeq, before.T, post.T)
 					break
 				} else if post.S < before.S || post.S > before.S+1 || post.T < before.T || post.T > before.T+1 || len(post.msgs) < len(before.msgs) {
 					env.Violate("C07/continuity", "a refused Logon moved the counters from S=%d T=%d to S=%d T=%d, stored messages %d -> %d", before.S, before.T, post.S, post.T, len(before.msgs), len(post.msgs))
